@@ -53,7 +53,7 @@ def plan(tier):
     if tier == "thorough":
         return {"runs": 60000, "slice": 200, "budget_s": 2400,
                 "slice_timeout_s": 1200}
-    return {"runs": 640, "slice": 16, "budget_s": 150,
+    return {"runs": 480, "slice": 12, "budget_s": 150,
             "slice_timeout_s": 400}
 
 
@@ -147,13 +147,23 @@ def shrink(prog, ops, cls):
     return prog, ops
 
 
-def sweep(prog, rng, names, counters, log, observer):
-    """Returns (violation result, [op]) or (None, None)."""
+def rebuild(prog, base_ops, observer):
+    """State = program + the accepted operations of the random history."""
+    root = parse(prog)
+    cl = classes()
+    for op in base_ops:
+        hm.apply_op(root, op, cl)
+    observer.root = root
+    return root
+
+
+def sweep(prog, rng, names, counters, log, observer, base_ops=()):
+    """Returns (violation result, ops) or (None, None)."""
     from psyclone.psyir.nodes import Node
     cl = classes()
     chosen = rng.sample(names, 5)
-    root = parse(prog)
-    observer.root = root
+    base_ops = list(base_ops)
+    root = rebuild(prog, base_ops, observer)
     before = hm.snapshot(root)
     for name in chosen:
         pref = hm.TABLE.get(name, ((), "node"))[0]
@@ -185,13 +195,13 @@ def sweep(prog, rng, names, counters, log, observer):
                                           "refusal": res["err"],
                                           "site": res["site"],
                                           "diff": hm.diff_snapshots(
-                                              before, after)}}, [op])
+                                              before, after)}},
+                            base_ops + [op])
             else:
                 if st == "other-exception":
                     counters.inc2("aborted_internal_error",
                                   name + ":" + res["err"].split(":")[0])
-                root = parse(prog)
-                observer.root = root
+                root = rebuild(prog, base_ops, observer)
                 before = hm.snapshot(root)
     return None, None
 
@@ -228,7 +238,13 @@ def run_one(seed, index, tier):
         # (class, node) pairing
         obs = hm.MutationObserver().install()
         try:
-            sres, sops = sweep(prog, rng_h, names, counters, log, obs)
+            # half of the sweeps start from the state the random history
+            # produced (its accepted operations), half from the program
+            accepted_ops = [op for op, pat in zip(ops, res["pattern"])
+                            if pat[3] == "accepted"]
+            base = accepted_ops if (index % 2 == 1 and
+                                    len(res["pattern"]) == len(ops)) else []
+            sres, sops = sweep(prog, rng_h, names, counters, log, obs, base)
         except Exception as err:
             counters.inc2("aborted_internal_error",
                           "sweep:" + type(err).__name__)
